@@ -44,7 +44,18 @@ Diverges(x, pre) ==
         /\ \A j \in 1..(i - 1) : SameSeg(x[j], pre[j])
         /\ pre[i].k = "S" /\ (x[i].k = "P" \/ x[i] # pre[i])
   \/ (Len(x) < Len(pre) /\ \A j \in DOMAIN x : SameSeg(x[j], pre[j]))
+\* OVERLAP (a cfg overrides it with TRUE, C01 only): an application may register routes of its own below the prefix at which it
+\* mounts another one -- C01 quantifies over every nesting.  Excluded are the trees the framework refuses at start-up in one of
+\* the two registration orders (`Conflicting route definition`: walking down from the mount point through params of both
+\* sides, the route and a route of the mounted application continue with the same static segment, or they are the same path);
+\* the mounted application then has routes only.  Checked on the finished tree (NoRefusal in Finish).
+OVERLAP == FALSE
+TrueConst == TRUE
 Clash(x, pre) == IF MODE = "c04" THEN ~Diverges(x, pre) ELSE SameUnder(x, pre)
+RECURSIVE StaticClash(_, _)
+StaticClash(x, y) == IF x = <<>> \/ y = <<>> THEN x = y
+                     ELSE IF x[1].k = "P" /\ y[1].k = "P" THEN StaticClash(Tail(x), Tail(y))
+                     ELSE x[1].k = "S" /\ y[1] = x[1]
 Items(a) == SeqToSet(apps[a].items)
 \* full depth of params from the root is limited to 2 (documented limit of the framework)
 RECURSIVE ParamsAbove(_)
@@ -58,7 +69,7 @@ SetFangs(a, f) == /\ ~done /\ apps[a].fangs = <<>> /\ apps[a].items = <<>> /\ f 
                   /\ apps' = [apps EXCEPT ![a].fangs = f] /\ UNCHANGED <<mountedSet, nextH, early, done>>
 AddRoute(a, r, ms, lf) ==
   /\ ~done /\ Placed(a) /\ Cardinality({it \in Items(a) : it.t = "route"}) < MaxRoutes
-  /\ \A it \in Items(a) : IF it.t = "route" THEN it.segs # r ELSE ~Clash(r, it.segs)
+  /\ \A it \in Items(a) : IF it.t = "route" THEN it.segs # r ELSE (OVERLAP /\ MODE = "c01") \/ ~Clash(r, it.segs)
   /\ ParamsAbove(a) + NParams(r) =< 2
   /\ apps' = [apps EXCEPT ![a].items = Append(@, [t |-> "route", segs |-> r, methods |-> ms, local |-> lf, h |-> nextH, app |-> 0])]
   /\ nextH' = nextH + 1 /\ UNCHANGED <<mountedSet, early, done>>
@@ -66,12 +77,16 @@ AddRoute(a, r, ms, lf) ==
 \*  application value as building the child first -- the harness builds recursively from the final record)
 AddMount(a, pre, b) ==
   /\ ~done /\ Placed(a) /\ b > a /\ b \notin mountedSet /\ b = NApps - Cardinality(mountedSet \ {1})
-  /\ \A it \in Items(a) : ~Clash(it.segs, pre) /\ (it.t = "mount" => ~Clash(pre, it.segs))
+  /\ \A it \in Items(a) : ((OVERLAP /\ MODE = "c01" /\ it.t = "route") \/ ~Clash(it.segs, pre)) /\ (it.t = "mount" => ~Clash(pre, it.segs))
   /\ ParamsAbove(a) + NParams(pre) =< 2
   /\ apps' = [apps EXCEPT ![a].items = Append(@, [t |-> "mount", segs |-> pre, methods |-> <<>>, local |-> <<>>, h |-> 0, app |-> b])]
   /\ mountedSet' = mountedSet \cup {b} /\ UNCHANGED <<nextH, early, done>>
 UsedFangs == UNION {SeqToSet(apps[a].fangs) : a \in 1..NApps} \cup UNION {SeqToSet(it.local) : it \in UNION {Items(a) : a \in 1..NApps}}
-Finish(e) == /\ ~done /\ mountedSet = 2..NApps
+NoRefusal == \A a \in 1..NApps : \A mt \in {it \in Items(a) : it.t = "mount"} : \A rt \in {it \in Items(a) : it.t = "route"} :
+               SameUnder(rt.segs, mt.segs) =>
+                  /\ \A y \in Items(mt.app) : y.t = "route" /\ ~StaticClash(SubSeq(rt.segs, Len(mt.segs) + 1, Len(rt.segs)), y.segs)
+HasOverlap == \E a \in 1..NApps : \E mt \in {it \in Items(a) : it.t = "mount"} : \E rt \in {it \in Items(a) : it.t = "route"} : SameUnder(rt.segs, mt.segs)
+Finish(e) == /\ ~done /\ mountedSet = 2..NApps /\ (OVERLAP => NoRefusal /\ HasOverlap)
              /\ \A a \in 1..NApps : \/ \E it \in Items(a) : it.t = "route" \/ (it.t = "mount" /\ it.segs = <<>>)   \* (a root mount leaves no room for a route)
                                     \/ (MODE = "c04" /\ a > 1 /\ apps[a].fangs # <<>>)     \* a wall: a mounted application with fangs and no route at all
              /\ (e = 0 \/ (FANGS /\ e \in UsedFangs))
